@@ -8,13 +8,18 @@ block), Proofs/ScopeGen.lean (the generator only extends the function table),
 Proofs/ScopeSim.lean (Sim, lookup_sound); Spec/RefEval.lean is the reference (closures by
 environment pointer).  Tie: channel `scope` (generator harness/gen_scope.go; Exec and record
 format of channel `eval`; Driver/Scope.lean): impl vs VM model on class/value/trace/four
-stack depths, impl vs reference evaluator on class/value/trace."""
+stack depths, impl vs reference evaluator on class/value/trace.
+Props/C03Sim.lean (+ Proofs/ScopeSimF.lean) connects these theorems to the C02 simulation proofs
+(Props/C02.lean, Proofs/SimF2*.lean): on the proved fragment lexical scoping is a theorem
+(lexical_scoping_on_fragment and five corollaries), Sim.RelF implies C03's Sim up to the order of
+bindings (simX_of_relF), preservation per expression (sim_preserved_on_fragment). It is a second
+home of C03 theorems, counted and axiom-audited by audit_sim."""
 import importlib.util, json, os
 import vcommon as V
 
 META = dict(
-    text="Lean 4. Proved about the executable model of the VM's scope machinery (Model/VM.lean: LexicalLookupSymbol with its three stages, LookupSymbolUntilFunction, the parent chain of closures, NewClosing, AddScope/AddFuncScope/RemoveScope/CreateClosure, and the whole mutual block Run/exec/CallResolved/Apply/Force around them), for all states, programs, histories and fuel: (1) shadowing_innermost_first / lookup_none_iff — a lookup returns the first scope binding the name along an explicit search list (live scopes of the current activation down to its function scope, then the captured scopes of the running closure and of its creators, then the template's captured scopes); (2) no_dynamic_leak / never_a_callers_local — the scope found is above the innermost live function boundary or captured, never a caller's local (a live scope below the boundary that was not captured); createClosure_captures / closure_captures_no_caller_local — CreateClosure stores exactly the part of the live stack above the boundary; (3) fresh_activation — AddScope/AddFuncScope push a scope id held by no stack, closure or lazy argument, with no variables, from the invariant WF (all ids below the table size) which every function of the VM preserves (wf_preserved, wf_reachable, by induction on fuel over the 13 mutually recursive functions and over the 8 mutually recursive generator functions); function code starts with AddFuncScope and a self tail call re-enters at instruction 0; (4) capture_by_reference / shared_update — closures created while the live stack is the same hold the same scope ids, an assignment through one is read by the other; (5) capture_outlives / pop_keeps_cells — no function of the VM removes a scope cell, changes a boundary flag, or changes the captured stack or parent of an existing closure; (6) lookup_sound — under the explicit simulation relation Sim between a VM state and a reference environment the two lookups agree; preservation of Sim is proved for entering a scope only (sim_preserved_partial names what is missing). The model is tied to the Go code by channel `scope`: histories of program texts against one interpreter, every name (ints, closures, makers, arrays of closures, loop counters, parameters, defn names) drawn from ONE pool of 2-3 names with a static type environment, 50 shape templates under colliding name assignments, and an exhaustive small scope (all programs of up to three nested scope constructs let/letseq/call/defn/newScope/for/def-in-fn/self-tail-call over the names a b, with capture at every level, mutation after capture, observation from the innermost point and after everything returned); implementation vs VM model on class/value/trace/four stack depths, implementation vs reference evaluator on class/value/trace. A unit test pins about twenty nestings; the theorems cover every state, the correspondence every generated shape.",
-    note="Trusted: Lean kernel; axioms propext/Classical.choice/Quot.sound. The theorems are about the hand-written model; it is tied to zygo/{environment,scopes,closing,vm,generator,expressions,stack}.go only by the `scope` (and C02's `eval`) correspondence, i.e. by differential testing. Model/Prim.lean (builtins on values) and the elaborator are shared by model and reference. Partial: preservation of Sim (hence the end-to-end 'VM lookup = reference lookup in every reachable state') is proved only for AddScope; leaving a scope, def/set, closure creation, call/return/tail call, apply/map, lazy arguments are held by the 3-way correspondence. Reachable is closed under whole texts and under exec/run/apply/force applied to reachable states, not under every intermediate state inside an instruction. The fix C03-01 test is syntactic: a name re-bound by a macro expansion or assigned from another function while the function is in a self-tail-call loop is not seen. Outside the modelled core: infix syntax, macros, packages, eval, hashes, floats.",
+    text="Lean 4. Proved about the executable model of the VM's scope machinery (Model/VM.lean: LexicalLookupSymbol with its three stages, LookupSymbolUntilFunction, the parent chain of closures, NewClosing, AddScope/AddFuncScope/RemoveScope/CreateClosure, and the whole mutual block Run/exec/CallResolved/Apply/Force around them), for all states, programs, histories and fuel: (1) shadowing_innermost_first / lookup_none_iff — a lookup returns the first scope binding the name along an explicit search list (live scopes of the current activation down to its function scope, then the captured scopes of the running closure and of its creators, then the template's captured scopes); (2) no_dynamic_leak / never_a_callers_local — the scope found is above the innermost live function boundary or captured, never a caller's local (a live scope below the boundary that was not captured); createClosure_captures / closure_captures_no_caller_local — CreateClosure stores exactly the part of the live stack above the boundary; (3) fresh_activation — AddScope/AddFuncScope push a scope id held by no stack, closure or lazy argument, with no variables, from the invariant WF (all ids below the table size) which every function of the VM preserves (wf_preserved, wf_reachable, by induction on fuel over the 13 mutually recursive functions and over the 8 mutually recursive generator functions); function code starts with AddFuncScope and a self tail call re-enters at instruction 0; (4) capture_by_reference / shared_update — closures created while the live stack is the same hold the same scope ids, an assignment through one is read by the other; (5) capture_outlives / pop_keeps_cells — no function of the VM removes a scope cell, changes a boundary flag, or changes the captured stack or parent of an existing closure; (6) lookup_sound — under the explicit simulation relation Sim between a VM state and a reference environment the two lookups agree; per instruction, preservation of Sim is proved for entering a scope only (sim_preserved_partial; SimPreservedFull stays a visible Prop); (7) Props/C03Sim.lean, on the fragment for which the C02 simulation proofs hold (fn/defn anywhere except inside call operands, closures capturing and assigning locals, functions as values, recursion, rest parameters, self tail calls, break/continue, lazy parameters and force, apply/map): lexical_scoping_on_fragment — the VM model computes what the reference evaluator (closure = code + frame pointer at creation, fresh frame per activation/let/loop, static-chain lookup) computes, value / error class / trace, for programs of every size — with the five clauses of the property as corollaries on program families parameterised by the values (free_variables_see_creation_site, closures_of_one_activation_share, fresh_variables_per_activation, captured_outlives_activation, tail_call_gets_fresh_scope); simX_of_relF — the relation Sim.RelF those proofs maintain implies Sim up to the order of bindings in a frame, so sim_preserved_on_fragment: after the whole code of any expression of the fragment (scopes left, def/set, closures made, calls, returns, tail calls, apply/map, lazy arguments) the states are related again and the lookups agree. The model is tied to the Go code by channel `scope`: histories of program texts against one interpreter, every name (ints, closures, makers, arrays of closures, loop counters, parameters, defn names) drawn from ONE pool of 2-3 names with a static type environment, 50 shape templates under colliding name assignments, and an exhaustive small scope (all programs of up to three nested scope constructs let/letseq/call/defn/newScope/for/def-in-fn/self-tail-call over the names a b, with capture at every level, mutation after capture, observation from the innermost point and after everything returned); implementation vs VM model on class/value/trace/four stack depths, implementation vs reference evaluator on class/value/trace. A unit test pins about twenty nestings; the theorems cover every state, the correspondence every generated shape.",
+    note="Trusted: Lean kernel; axioms propext/Classical.choice/Quot.sound. The theorems are about the hand-written model; it is tied to zygo/{environment,scopes,closing,vm,generator,expressions,stack}.go only by the `scope` (and C02's `eval`) correspondence, i.e. by differential testing. Model/Prim.lean (builtins on values) and the elaborator are shared by model and reference. Partial: per instruction, preservation of Sim is proved only for AddScope (SimPreservedFull is not proved). The end-to-end statement 'VM lookup = reference lookup after every expression, VM result = reference result' is a theorem on the proved fragment (Props/C03Sim.lean, resting on the 25 k lines of Proofs/Sim*.lean audited with it); outside it (fn/defn inside call operands, a self call in a directly compiled non-tail position, substitute, empty newScope: C02.CompileCorrectOutsideProved) leaving a scope, def/set, closure creation, call/return/tail call, apply/map, lazy arguments are held by the 3-way correspondence only. RelF gives Sim only up to the order of bindings inside a frame (SimX; simX_not_sim). Reachable is closed under whole texts and under exec/run/apply/force applied to reachable states, not under every intermediate state inside an instruction. The fix C03-01 test is syntactic: a name re-bound by a macro expansion or assigned from another function while the function is in a self-tail-call loop is not seen. Outside the modelled core: infix syntax, macros, packages, eval, hashes, floats.",
     technique="Lean 4 theorems (invariants by induction on fuel over the VM's mutual block and by structural induction over the generator) on an executable model; 3-way model/spec/implementation correspondence through the line protocol with a collision-directed generator and an exhaustive small scope",
     design_ref="DESIGN.md §7 C03, §13 (Lookup, Calls, Function prologue/epilogue)",
 )
@@ -27,6 +32,40 @@ def _c02():
     mod = importlib.util.module_from_spec(spec)
     spec.loader.exec_module(mod)
     return mod
+
+
+SIM_MOD = "ZygoVerif.Props.C03Sim"
+
+
+def audit_sim(rep, prep, ok):
+    """Props/C03Sim.lean (lexical scoping on the fragment proved by the C02 simulation; lemmas in
+    Proofs/ScopeSimF.lean) is a second home of C03 theorems: counted and axiom-audited like
+    Props/C03.lean (lean_phase handles one module). Same shape as checks/C02.py: audit_alias."""
+    path = os.path.join(V.LEAN, *SIM_MOD.split(".")) + ".lean"
+    thms, examples = V.lean_decls(path)
+    rep.obligations += len(thms) + examples
+    rep.coverage["theorems"] = list(rep.coverage.get("theorems", [])) + thms
+    rep.coverage["examples"] = rep.coverage.get("examples", 0) + examples
+    required = ["lexical_scoping_on_fragment", "free_variables_see_creation_site", "closures_of_one_activation_share",
+                "fresh_variables_per_activation", "captured_outlives_activation", "tail_call_gets_fresh_scope",
+                "simX_of_relF", "sim_preserved_on_fragment"]
+    gone = [t for t in required if "ZygoVerif.C03." + t not in thms]
+    if gone:
+        rep.violation("proof-break", {"what": "a headline theorem of Props/C03Sim.lean is missing", "missing": gone,
+                                      "theorem_or_correspondence": SIM_MOD}, no_input=True)
+        return
+    if not prep["ok_lean"]:
+        return
+    with V.Lock():
+        ax, raw = V.print_axioms(SIM_MOD, thms)
+    bad = {t: a for t, a in ax.items() if set(a) - V.ALLOWED_AXIOMS}
+    missing = [t for t in thms if t not in ax]
+    rep.coverage["axioms"] = sorted(set(rep.coverage.get("axioms", [])) | {a for v in ax.values() for a in v})
+    if bad or missing:
+        rep.violation("proof-break", {"what": "axiom audit failed", "bad": bad, "unreported": missing,
+                                      "theorem_or_correspondence": "#print axioms (%s)" % SIM_MOD, "raw": raw[-2000:]}, no_input=True)
+    elif ok:
+        rep.discharged = rep.obligations
 
 
 def settle_hangs(rows):
@@ -58,16 +97,29 @@ def run(rep):
                     rep.known.append(k)
     except FileNotFoundError:
         pass
-    prep = V.prepare(["ZygoVerif.Props.C03"])
-    V.lean_phase(rep, prep, "ZygoVerif.Props.C03")
+    prep = V.prepare(["ZygoVerif.Props.C03", SIM_MOD])
+    ok = V.lean_phase(rep, prep, "ZygoVerif.Props.C03")
+    audit_sim(rep, prep, ok)
     rep.coverage["proved"] = ("shadowing_innermost_first, lookup_none_iff, live_scope_shadows_captured; no_dynamic_leak, never_a_callers_local, "
                               "createClosure_captures, closure_captures_no_caller_local, captured_reads_as_live; wf_preserved(+_run,_text), wf_reachable, "
                               "fresh_activation, function_code_starts_with_addFuncScope, self_tail_call_reenters_at_zero; closingNow_congr, "
                               "capture_by_reference, shared_update; capture_outlives(+_run,_text), pop_keeps_cells; lookup_sound, sim_preserved_partial; "
-                              "selfname_shadowed_counterexample / _is_ordinary_call / selfname_as_value_keeps_jump (fix C03-01)")
-    rep.coverage["not_proved"] = ("SimPreservedFull: preservation of the simulation relation is proved for AddScope only (sim_preserved_partial); "
-                                  "RemoveScope, def/set, CreateClosure, call/return/self tail call, apply/map, lazy arguments are held by the `scope` "
-                                  "correspondence of this run, not by a theorem")
+                              "selfname_shadowed_counterexample / _is_ordinary_call / selfname_as_value_keeps_jump (fix C03-01); "
+                              "Props/C03Sim.lean (on the fragment proved by the C02 simulation - fn/defn anywhere except inside call operands, closures capturing and assigning locals, "
+                              "functions as values, recursion, rest parameters, self tail calls, break/continue, lazy parameters + force, apply/map): lexical_scoping_on_fragment "
+                              "(VM model = reference evaluator on value / error class / trace; the reference evaluator - closure = code + frame pointer, fresh frame per activation/let/loop, "
+                              "static-chain lookup - is the definition of lexical scoping); corollaries on program families parameterised by the values, reference side evaluated by simp, "
+                              "machine side by the theorem: free_variables_see_creation_site, closures_of_one_activation_share, fresh_variables_per_activation, captured_outlives_activation, "
+                              "tail_call_gets_fresh_scope (F2c, not F2: progTail_notF2); simX_of_relF (Sim.RelF implies C03's Sim with rho = id, phi = trf m, up to the ORDER of bindings "
+                              "inside a frame: SimX; simX_not_sim shows the difference is real; chain field by Scope.chainF_refChain / fnChainF_dedup over ChainF / FnChainF), "
+                              "lookup_sound_x, lookup_agrees_under_relF, sim_preserved_on_fragment (per EXPRESSION of the fragment: after the whole code of the expression - scopes entered "
+                              "and left, def/set, closures made, calls and returns, self tail calls inside callees, apply/map, lazy arguments - the states are related again)")
+    rep.coverage["not_proved"] = ("SimPreservedFull (def ... : Prop in Props/C03.lean; per INSTRUCTION, from every related state): proved for AddScope only (sim_preserved_partial). "
+                                  "On the proved fragment its content is a theorem at the granularity of one expression (sim_preserved_on_fragment, from Sim.RelF's preservation: "
+                                  "RemoveScope, def/set, CreateClosure, call/return/self tail call, apply/map, lazy arguments included). Still outside, held by the `scope` correspondence "
+                                  "of this run only: programs outside the proved fragments (C02.CompileCorrectOutsideProved: fn/defn inside the operands of a call - templates made at run "
+                                  "time close over the dynamic stack -, a self call in a directly compiled non-tail position, substitute, empty newScope), the per-instruction form, "
+                                  "and the order of bindings inside a frame (Sim vs SimX; irrelevant to lookups)")
     rep.assumptions += [
         "Model/VM.lean, Model/Gen.lean are hand-written; tied to the Go code by the `scope` correspondence (class, value, trace, four stack depths per text) and by C02's `eval` correspondence",
         "Model/Prim.lean (builtins on values, truthiness, the BindSymbol re-binding rule) and the elaborator are shared by model and reference evaluator",
